@@ -25,19 +25,19 @@ theorem enter_spec {α} {m : P α} {Qp : α → Prop} (h : T src Tr m (fun a _ =
     T src Tr (enter m) (fun a _ => Qp a) := by
   intro s hi _
   let s0 : PState := { s with depth := s.depth + 1, maxDepth := max s.maxDepth (s.depth + 1) }
-  have hi0 : Inv src s0 := ⟨hi.src_eq, hi.mark⟩
+  have hi0 : Inv src s0 := hi.congr rfl rfl rfl
   have := h s0 hi0 trivial
   show match enter m s with
     | (.ok a, s') => Inv src s' ∧ Qp a
-    | (.error e, s') => isPanic e = false ∧ s'.scan.src = src
+    | (.error e, s') => isPanic e = false ∧ Inv0 src s'
   unfold enter
   simp only
   cases hm : m s0 with
   | mk r s1 =>
     rw [hm] at this
     cases r with
-    | error e => exact ⟨this.1, this.2⟩
-    | ok a => exact ⟨⟨this.1.src_eq, this.1.mark⟩, this.2⟩
+    | error e => exact ⟨this.1, this.2.congr rfl rfl⟩
+    | ok a => exact ⟨this.1.congr rfl rfl rfl, this.2⟩
 
 theorem fuel_spec {α} {Q : α → PState → Prop} : T src Tr (P.throw .fuel : P α) Q := T.throw _ rfl
 
@@ -170,15 +170,18 @@ theorem next_eq : next = (do
   let posTok ← scanNext
   nextTail trailing posTok) := rfl
 
-theorem nextTail_spec (tr : Option Nat) (pt : Option (Nat × Token)) : T src Tr (nextTail tr pt) (fun _ _ => True) := by
+theorem nextTail_spec (tr : Option Nat) (pt : Option (Nat × Token)) :
+    T src (CommentFacts pt) (nextTail tr pt) (fun _ _ => True) := by
   unfold nextTail
+  hoare
+  all_goals first | exact (commentLoop_spec _ _ _ _).pre (fun s h => h.2) | skip
   hoare
 
 /-- `next()` from any state over `src` (in particular a fresh parser): afterwards the invariant holds -/
-theorem next_establishes (s : PState) (hs : s.scan.src = src) :
+theorem next_establishes (s : PState) (hs : Inv0 src s) :
     match next s with
     | (.ok _, s') => Inv src s'
-    | (.error e, s') => isPanic e = false ∧ s'.scan.src = src := by
+    | (.error e, s') => isPanic e = false ∧ Inv0 src s' := by
   rw [next_eq]
   let tr : Option Nat := if s.started then some (lineOfTable s.scan.lines s.scan.pos) else none
   let s1 : PState := { s with started := true }
@@ -189,10 +192,10 @@ theorem next_establishes (s : PState) (hs : s.scan.src = src) :
       nextTail trailing posTok : P Unit) s = (scanNext >>= nextTail tr) s1 := by
     cases hst : s.started <;> simp [tr, s1, hst, Bind.bind, P.get, P.modify, trueLine, scanPosition, Pure.pure]
   rw [e]
-  have h1 := scanNext_establishes (src := src) s1 hs
+  have h1 := scanNext_establishes (src := src) s1 (hs.congr rfl rfl)
   show match (Bind.bind scanNext (nextTail tr)) s1 with
     | (.ok _, s') => Inv src s'
-    | (.error e, s') => isPanic e = false ∧ s'.scan.src = src
+    | (.error e, s') => isPanic e = false ∧ Inv0 src s'
   simp only [Bind.bind]
   cases hsn : scanNext s1 with
   | mk r s2 =>
@@ -200,7 +203,7 @@ theorem next_establishes (s : PState) (hs : s.scan.src = src) :
     cases r with
     | error er => exact h1
     | ok a =>
-      have := nextTail_spec (src := src) tr a s2 h1 trivial
+      have := nextTail_spec (src := src) tr a s2 h1.1 h1.2
       dsimp only
       cases hnt : nextTail tr a s2 with
       | mk r3 s3 =>
@@ -210,13 +213,13 @@ theorem next_establishes (s : PState) (hs : s.scan.src = src) :
         | ok u => exact this.1
 
 /-- running `if !started { next() }; k` from a fresh parser -/
-theorem entry {α} (k : P α) {Q : α → PState → Prop} (hk : T src Tr k Q) (s : PState) (hs : s.scan.src = src)
+theorem entry {α} (k : P α) {Q : α → PState → Prop} (hk : T src Tr k Q) (s : PState) (hs : Inv0 src s)
     (hst : s.started = false) :
     match (do
         if !(← P.get).started then next
         k : P α) s with
     | (.ok a, s') => Inv src s' ∧ Q a s'
-    | (.error e, s') => isPanic e = false ∧ s'.scan.src = src := by
+    | (.error e, s') => isPanic e = false ∧ Inv0 src s' := by
   have e : (do
       if !(← P.get).started then next
       k : P α) s = (next >>= fun _ => k) s := by
@@ -225,7 +228,7 @@ theorem entry {α} (k : P α) {Q : α → PState → Prop} (hk : T src Tr k Q) (
   have h1 := next_establishes (src := src) s hs
   show match (Bind.bind next fun _ => k) s with
     | (.ok a, s') => Inv src s' ∧ Q a s'
-    | (.error e, s') => isPanic e = false ∧ s'.scan.src = src
+    | (.error e, s') => isPanic e = false ∧ Inv0 src s'
   simp only [Bind.bind]
   cases hn : next s with
   | mk r s2 =>
@@ -251,14 +254,17 @@ theorem parseFile_decls_spec : ∀ fuel acc, T src Tr (parseFile.decls r fuel ac
   | zero => intro acc; unfold parseFile.decls; exact T.throw _ rfl
   | succ n ih => intro acc; unfold parseFile.decls; hloop ih
 
-/-- `parse_file` on a parser that has already been used successfully (the invariant holds) -/
-theorem parseFile_spec : T src Tr (parseFile r) (fun _ _ => True) := by
-  unfold parseFile
-  hoare
-  all_goals first
-    | (refine T.set _ ?_; intro s hi hr; obtain ⟨rfl, _⟩ := hr; exact ⟨⟨hi.src_eq, hi.mark⟩, trivial⟩)
-    | skip
-  hoare
+/-- the comment list as `File::comments` lists it: strictly increasing offsets, so every comment at most
+    once and in source order -/
+def CommentsSorted (f : File) : Prop := (f.comments.map (·.pos)).Pairwise (· < ·)
+
+open P in
+/-- the end of `parse_file`: the comments move from the parser into the file -/
+def parseFileTail (docs : List Comment) (pkgName : Ident) (imps : List Import) (ds : List Declaration) : P File := do
+  let s ← get
+  set { s with comments := #[] }
+  return { path := s.path, line_info := [], docs, pkg_name := pkgName, imports := imps, decl := ds,
+           comments := s.comments.toList }
 
 open P in
 /-- `parse_file` after the priming `next()` -/
@@ -268,22 +274,26 @@ def parseFileRest (r : Tbl) : P File := do
   let _ ← skipped Operator.SemiColon
   let imps ← parseFile.imports (← loopFuel) []
   let ds ← parseFile.decls r (← loopFuel) []
-  let s ← get
-  set { s with comments := #[] }
-  return { path := s.path, line_info := [], docs, pkg_name := pkgName, imports := imps, decl := ds,
-           comments := s.comments.toList }
+  parseFileTail docs pkgName imps ds
 
 open P in
 theorem parseFile_eq (r : Tbl) : parseFile r = (do
     if !(← get).started then next
     parseFileRest r) := rfl
 
-theorem parseFileRest_spec : T src Tr (parseFileRest r) (fun _ _ => True) := by
+theorem parseFileTail_spec (docs : List Comment) (pkgName : Ident) (imps : List Import) (ds : List Declaration) :
+    T src Tr (parseFileTail docs pkgName imps ds) (fun f _ => CommentsSorted f) := by
+  unfold parseFileTail
+  refine T.bind T.getInv (fun st => ?_)
+  refine T.extract (p := Inv src st) (fun s h => by rw [h.1]; exact h.2.1) (fun hinv => ?_)
+  refine T.bind (Q1 := fun _ _ => True) ?_ (fun _ => T.pure _ (fun _ _ => hinv.sorted))
+  refine T.set _ ?_
+  intro s hi hr
+  obtain ⟨rfl, _⟩ := hr
+  exact ⟨⟨⟨hi.src_eq, by simp, by simp⟩, hi.mark⟩, trivial⟩
+
+theorem parseFileRest_spec : T src Tr (parseFileRest r) (fun f _ => CommentsSorted f) := by
   unfold parseFileRest
-  hoare
-  all_goals first
-    | (refine T.set _ ?_; intro s hi hr; obtain ⟨rfl, _⟩ := hr; exact ⟨⟨hi.src_eq, hi.mark⟩, trivial⟩)
-    | skip
   hoare
 
 end
@@ -292,6 +302,9 @@ end
 
 theorem initState_src (text : String) (profile : Profile) :
     (initState text profile).scan.src = text.toList.toArray ∧ (initState text profile).started = false := ⟨rfl, rfl⟩
+
+theorem initState_inv0 (text : String) (profile : Profile) : Inv0 text.toList.toArray (initState text profile) :=
+  ⟨rfl, by simp [initState], by simp [initState]⟩
 
 /-- a result that is a tree or an error value -/
 def NoPanic {α} (r : Except PErr α) : Prop := ∀ site, r ≠ .error (.panic site)
@@ -308,12 +321,28 @@ theorem noPanic_of {α} {r : Except PErr α} {s : PState} {G : α → PState →
 theorem parseFile_no_panic (text : String) (profile : Profile) (n : Nat) :
     NoPanic (parseFile (tbl n) (initState text profile)).1 := by
   have hk := @parseFileRest_spec text.toList.toArray (tbl n) (tblOK n)
-  have := entry (src := text.toList.toArray) (parseFileRest (tbl n)) hk (initState text profile) rfl rfl
+  have := entry (src := text.toList.toArray) (parseFileRest (tbl n)) hk (initState text profile) (initState_inv0 text profile) rfl
   rw [← parseFile_eq] at this
   exact noPanic_of (s := (parseFile (tbl n) (initState text profile)).2) this
 
 theorem runFile_no_panic (text : String) (profile : Profile) : NoPanic (runFile text profile).1 :=
   parseFile_no_panic text profile _
+
+/-- **C11, whole parser: no comment is listed twice or out of order.**  Whenever `parse_file` accepts a
+    text, the offsets in `File::comments` are strictly increasing — through every backtracking
+    (`goback` forgets exactly the comments it will read again), every `line_end_comment` and every
+    error caught on the way -/
+theorem parseFile_comments_sorted (text : String) (profile : Profile) (n : Nat) (f : File) (s' : PState)
+    (h : parseFile (tbl n) (initState text profile) = (.ok f, s')) : CommentsSorted f := by
+  have hk := @parseFileRest_spec text.toList.toArray (tbl n) (tblOK n)
+  have := entry (src := text.toList.toArray) (parseFileRest (tbl n)) hk (initState text profile)
+    (initState_inv0 text profile) rfl
+  rw [← parseFile_eq, h] at this
+  exact this.2
+
+theorem runFile_comments_sorted (text : String) (profile : Profile) (f : File) (s' : PState)
+    (h : runFile text profile = (.ok f, s')) : CommentsSorted f :=
+  parseFile_comments_sorted text profile _ f s' h
 
 theorem expressionBody_eq (r : Tbl) : expressionBody r = (do
     if !(← P.get).started then next
@@ -369,7 +398,7 @@ theorem expression_no_panic (text : String) (profile : Profile) (n : Nat) :
       (tblOK m).binaryExpression none 0 (by simp)
     let i0 : PState := initState text profile
     let s0 : PState := { i0 with depth := i0.depth + 1, maxDepth := max i0.maxDepth (i0.depth + 1) }
-    have := entry (src := text.toList.toArray) _ hk s0 rfl rfl
+    have := entry (src := text.toList.toArray) _ hk s0 ((initState_inv0 text profile).congr rfl rfl) rfl
     rw [← expressionBody_eq] at this
     show NoPanic (enter (expressionBody (tbl m)) (initState text profile)).1
     unfold enter
@@ -388,7 +417,7 @@ theorem parseStmt_no_panic (text : String) (profile : Profile) (n : Nat) :
     have hk := @parseStmtRest_spec text.toList.toArray (tbl m) (tblOK m)
     let i0 : PState := initState text profile
     let s0 : PState := { i0 with depth := i0.depth + 1, maxDepth := max i0.maxDepth (i0.depth + 1) }
-    have := entry (src := text.toList.toArray) _ hk s0 rfl rfl
+    have := entry (src := text.toList.toArray) _ hk s0 ((initState_inv0 text profile).congr rfl rfl) rfl
     rw [← parseStmtBody_eq] at this
     show NoPanic (enter (parseStmtBody (tbl m)) (initState text profile)).1
     unfold enter
